@@ -3370,7 +3370,9 @@ func (c *BytecodeCompiler) addUpvalue(local *bytecodeLocal, upIndex uint16, kind
 	}
 
 	upvalue := &bytecodeUpvalue{
-		index:   uint16(len(c.upvalues)),
+		// locals boxed with `&local` are kept in c.upvalues too (upvalueOwnLocal) but take no slot
+		// in the closure's upvalue list, so the slot index is the number of captured variables so far
+		index:   uint16(c.bytecode.UpvalueCount),
 		upIndex: upIndex,
 		local:   local,
 		kind:    kind,
